@@ -269,6 +269,30 @@ def wait_fg_rules(ctx, crate, wj):
                     last_guard = True
         ok = from_ws and last_guard
         n_ok += ok
+        if ok:
+            # ... and under nothing narrower: the other guards may only say `no waitpid error` and `a member of
+            # this pipeline`; a further condition on how the process ended loses statuses (128+signal)
+            extra = []
+            for a, v in facts:
+                a2 = wj.expand_vars(strip_sites(a))
+                if a2[0] == "call" and last_seg(a2[1]) == "is_error":
+                    continue
+                if a2[0] == "call" and last_seg(a2[1]) == "contains":
+                    continue
+                if a2[0] == "var" and wj.locals[a2[1]]["ty"] == "bool":
+                    defs = [wj.expand_vars(strip_sites(wj.def_expr(bi2, si2))) for bi2, si2 in wj.defs.get(a2[1], [])]
+                    if defs and all(d[0] == "call" and last_seg(d[1]) == "contains" for d in defs):
+                        continue
+                if a2[0] == "bin" and a2[1] in ("Eq", "Ne") and ((is_pid_of_ws(a2[2]) and is_last(a2[3])) or
+                                                                 (is_pid_of_ws(a2[3]) and is_last(a2[2]))):
+                    continue
+                if a2[0] == "discr":
+                    continue
+                extra.append("%s=%s" % (render(a2)[:50], v))
+            ctx.ob("R02-5", wj.path, "the last stage's status is recorded however it ended (no further guard on the write)",
+                   not extra, key="R02-5|%s|status-write-narrowed" % wj.path, where=wj.loc(bi, si), crate=crate.kind,
+                   detail=None if not extra else "extra guard(s) %s: a last stage killed by a signal (or stopped) leaves the "
+                   "status at 0: `&&` runs on, `$?` reads 0" % "; ".join(extra))
         ctx.ob("R02-5", wj.path, "status = ws.get_status() only under pid == *pids.last()", ok,
                key="R02-5|%s|status-write|%s" % (wj.path, mir.render_key(rhs_c)[:60]), where=wj.loc(bi, si), crate=crate.kind,
                detail="guards: " + "; ".join("%s=%s" % (render(a)[:70], v) for a, v in facts))
